@@ -638,6 +638,143 @@ example :
        .raised .key) := by
   decide
 
+/-! ## Variables never share storage
+
+Whole-series assignment stores VALUES: `obj.Y = obj.X`, `obj['Y'] = obj['X']`, a view of `X`, or one caller-owned array
+given to two variables all arrive in the model as the operand's current values (`Operand.ndarray`), and `put` replaces
+the series of the named variable only.  Hence a later write to one of them cannot reach the other. -/
+
+/-- The variable a single-variable assignment names. -/
+def Op.target : Op → Option Name
+  | .setAttr name _ _ => some name
+  | .setItem name _ => some name
+  | .setPos name _ _ => some name
+  | .setPosSlice name _ _ _ _ => some name
+  | .setLabel name _ _ => some name
+  | .setLabelSlice name _ _ _ _ => some name
+  | _ => none
+
+theorem assignAt_other {s : Store} {name other : Name} (ho : other ≠ name) (ser : Series)
+    (view : List Nat × List Nat) (v : Operand) : (assignAt s name ser view v).1.get other = s.get other := by
+  rw [assignAt_eq]; exact get_put_other ho
+
+theorem assignWhole_other {s : Store} {name other : Name} (ho : other ≠ name) (ser : Series) (v : Operand) :
+    (assignWhole cfg s name ser v).1.get other = s.get other := by
+  cases hv : v.isSequence
+  · rw [assignWhole_nonseq hv]; exact assignAt_other ho _ _ _
+  · unfold assignWhole
+    simp only [hv, if_true]
+    cases hl : listShape v with
+    | none => rfl
+    | some p =>
+      obtain ⟨shp, leaves⟩ := p
+      dsimp only
+      cases hc : convAll ser.dtype leaves with
+      | error e => rfl
+      | ok ws =>
+        dsimp only
+        cases hd : shapeRejected cfg s.n shp with
+        | true => rfl
+        | false => exact get_put_other ho
+
+theorem assignLoc_other {s : Store} {name other : Name} (ho : other ≠ name) (ser : Series) (l : Loc) (v : Operand) :
+    (assignLoc s name ser l v).1.get other = s.get other := by
+  cases l with
+  | missing => rfl
+  | pos p => simp only [assignLoc]; split; exact assignAt_other ho _ _ _; rfl
+  | nonIntPos p => simp only [assignLoc]; split; exact assignAt_other ho _ _ _; rfl
+  | slice a b => simp only [assignLoc]; exact assignAt_other ho _ _ _
+
+/-- **A write to one variable leaves every other variable's every cell unchanged** — for every store (hence after
+    every history, cross-assignments `Y ← X` included), every single-variable assignment (whole series by attribute
+    or key, position, position slice, label, label slice), every operand and whether or not the write succeeds. -/
+theorem write_touches_only_target (s : Store) {op : Op} {name : Name} (ht : Op.target op = some name) {other : Name}
+    (ho : other ≠ name) : (step cfg s op).1.get other = s.get other := by
+  cases op with
+  | setAttr n v alts =>
+    simp only [Op.target] at ht; cases ht
+    simp only [step, setAttr]
+    split
+    · rfl
+    · cases hg : s.get name with
+      | some ser => exact assignWhole_other ho ser v
+      | none =>
+        dsimp only
+        split
+        · rfl
+        · split
+          · rfl
+          · rcases addAttribute_cases cfg s name with hc | ⟨hc, _⟩ <;> rw [hc] <;> rfl
+  | setItem n v =>
+    simp only [Op.target] at ht; cases ht
+    simp only [step, setItem]
+    cases hg : s.get name with
+    | none => rfl
+    | some ser => exact assignWhole_other ho ser v
+  | setPos n i v =>
+    simp only [Op.target] at ht; cases ht
+    simp only [step, setPos]
+    cases hg : s.get name with
+    | none => rfl
+    | some ser =>
+      dsimp only
+      cases pyIndex (firstDim ser) i with
+      | none => rfl
+      | some p => exact assignAt_other ho _ _ _
+  | setPosSlice n a b st v =>
+    simp only [Op.target] at ht; cases ht
+    simp only [step, setPosSlice]
+    cases hg : s.get name with
+    | none => rfl
+    | some ser =>
+      dsimp only
+      cases pySliceAny (firstDim ser) a b st with
+      | none => rfl
+      | some ps => exact assignAt_other ho _ _ _
+  | setLabel n l v =>
+    simp only [Op.target] at ht; cases ht
+    simp only [step, setLabel]
+    cases hg : s.get name with
+    | none => rfl
+    | some ser =>
+      dsimp only
+      cases hl : locate s l with
+      | missing => rfl
+      | pos p => exact assignLoc_other ho _ _ _
+      | nonIntPos p => exact assignLoc_other ho _ _ _
+      | slice a b => exact assignLoc_other ho _ _ _
+  | setLabelSlice n a b st v =>
+    simp only [Op.target] at ht; cases ht
+    simp only [step, setLabelSlice]
+    cases hg : s.get name with
+    | none => rfl
+    | some ser =>
+      dsimp only
+      cases resolveSlice s a b st with
+      | error e => rfl
+      | ok t =>
+        obtain ⟨lo, hi, stp⟩ := t
+        dsimp only
+        cases pySliceAny (firstDim ser) (some ↑lo) (some ↑hi) (some stp) with
+        | none => rfl
+        | some ps => exact assignAt_other ho _ _ _
+  | addVariable n v d => simp [Op.target] at ht
+  | addAttribute n => simp [Op.target] at ht
+  | replaceValues kvs => simp [Op.target] at ht
+  | setValues v alts => simp [Op.target] at ht
+  | setStrict b alts => simp [Op.target] at ht
+  | badKey t => simp [Op.target] at ht
+
+/-- Non-vacuity (the regression this guards against): `obj.Y = obj.X` (the operand is X's current values), then
+    `obj['X', label 1] = 99` and a label-slice write to `Y`: each lands in its own variable only. -/
+example :
+    (let s := run Cfg.fixed (init [0, 1, 2] .seq false)
+        [.addVariable "X" (.list [.i 1, .i 2, .i 3]) none, .addVariable "Y" (.scalar (.i 0)) none,
+         .setAttr "Y" (.ndarray ⟨i8, [3], [.i 1, .i 2, .i 3]⟩) [], .setLabel "X" 1 (.scalar (.i 99)),
+         .setLabelSlice "Y" (some 0) (some 1) none (.scalar (.i 7))]
+     (getItem s "X", getItem s "Y")) = (.array [3] [.i 1, .i 99, .i 3], .array [3] [.i 7, .i 7, .i 3]) := by
+  decide
+
 /-! ## Alias-enabled classes (`AliasMixin` in front of the container)
 
 The alias layer is `resolveName al` (M8's `Alias.resolve` on the instance's shortened alias map) applied to the
